@@ -173,13 +173,20 @@ Definition outcome_eqb {B} (eqb : B -> B -> bool) (a b : outcome B) : bool :=
       [f]; read through FileManager.Get and through Filestore.Get (empty main
       blockstore): both outcomes.
     - [CUrl]: a URL reference answered by an HTTP server with (code, body); the
-      Range header that arrived. *)
+      Range header that arrived.
+    - [CHeld]: a block that a Get (validating blockstore, FileManager, Filestore;
+      file or URL reference) handed out was kept by the caller while further
+      reads, failing reads of modified files, Verify / VerifyAll ran; [at_return]
+      and [at_end] name (interned: equal ids = equal bytes) the bytes the caller's
+      block held when it was returned and at the end of the history.  In the
+      model an outcome [OOk b] is a value: nothing later changes it. *)
 Inductive case :=
 | CVal (want : cid) (stored : option N) (tab : list (N * N * option bytes)) (got : outcome N)
 | CFile (allow : bool) (r : reader) (f : fstate) (off size : N) (want : cid)
         (tab : list (N * bytes * option bytes)) (got got_fs : outcome bytes)
 | CUrl (allow : bool) (code : N) (body : bytes) (off size : N) (want : cid)
-       (tab : list (N * bytes * option bytes)) (range : option (N * N)) (got got_fs : outcome bytes).
+       (tab : list (N * bytes * option bytes)) (range : option (N * N)) (got got_fs : outcome bytes)
+| CHeld (want : cid) (tab : list (N * N * option bytes)) (at_return at_end : N).
 
 (** the specification: bytes are only handed out if they are KNOWN to hash to the
     requested CID — when no digest can be computed for the CID's prefix the answer
@@ -228,4 +235,7 @@ Definition check_case (k : case) : verdict :=
                   | None => negb allow
                   end)
                  (sound bytes_eqb tab want got && sound bytes_eqb tab want got_fs)
+  | CHeld want tab at_return at_end =>
+      (* model: the block is the value that was returned; spec: what the caller holds hashes to the CID *)
+      verdict_of (at_return =? at_end) (sound N.eqb tab want (OOk at_end))
   end.
